@@ -511,3 +511,32 @@ def enclosing_map(root) -> Dict[int, ast.AST]:
         for c in ast.iter_child_nodes(p):
             parents[id(c)] = p
     return parents
+
+
+_CANON_KEEP = {"self", "cls", "True", "False", "None", "not", "and", "or", "in", "is", "if", "else", "for", "lambda", "del", "return",
+               "break", "continue", "yield", "await", "async", "with", "as", "from", "import", "raise", "while", "try", "except", "finally",
+               "pass", "global", "nonlocal", "assert", "class", "def", "elif"}
+_CANON_RE = __import__("re").compile(r"(?<![.\w'\"])([A-Za-z_]\w*)(?![\w]*\s*\()(?![\w'\"])")
+
+
+def canon_code(text: str) -> str:
+    """Code text with every free-standing identifier (not an attribute name, not a called name, not a keyword, not ALL_CAPS)
+    replaced by a placeholder numbered by first appearance: local-variable renames do not change the result."""
+    names: Dict[str, str] = {}
+
+    def sub(m):
+        w = m.group(1)
+        if w in _CANON_KEEP or w.isupper() or (w[:1].isupper() and not w.islower() and "_" not in w and len(w) > 1 and w[1:].lower() != w[1:]):
+            return w
+        if w not in names:
+            names[w] = f"_{len(names) + 1}"
+        return names[w]
+    return _CANON_RE.sub(sub, text)
+
+
+def canon_key(key: str) -> str:
+    """Instance key with the code quoted in back-ticks canonicalised (see canon_code); everything else is kept verbatim."""
+    parts = key.split("`")
+    for i in range(1, len(parts), 2):
+        parts[i] = canon_code(parts[i])
+    return "`".join(parts)
